@@ -5,10 +5,12 @@ use serde_json::Value;
 
 pub mod c01;
 pub mod c03;
+pub mod c04;
 pub mod c07;
 pub mod c08;
 pub mod c09;
 pub mod c10;
+pub mod c11;
 pub mod c13;
 pub mod c14;
 pub mod c15;
@@ -35,7 +37,7 @@ pub struct PropDef {
 }
 
 pub fn all() -> Vec<PropDef> {
-    vec![c01::def(), c03::def(), c07::def(), c08::def(), c09::def(), c10::def(), c13::def(), c14::def(), c15::def(), c16::def(), c17::def(), c18::def(), c19::def(), c20::def()]
+    vec![c01::def(), c03::def(), c04::def(), c07::def(), c08::def(), c09::def(), c10::def(), c11::def(), c13::def(), c14::def(), c15::def(), c16::def(), c17::def(), c18::def(), c19::def(), c20::def()]
 }
 
 pub fn find(id: &str) -> Option<PropDef> {
